@@ -9,7 +9,7 @@
 From Coq Require Import List ZArith Bool Arith Lia.
 Import ListNotations.
 Require Import C20.Model C20.ProofsBase C20.ProofsToeplitz C20.ProofsPerm C20.ProofsShape C20.ProofsInterp
-  C20.ProofsSparse C20.ProofsRepeat C20.ProofsToSparse C20.ProofsGetitem C20.ProofsBdsmm C20.ProofsInterpT C20.ProofsMakeSparse.
+  C20.ProofsSparse C20.ProofsRepeat C20.ProofsToSparse C20.ProofsGetitem C20.ProofsBdsmm C20.ProofsInterpT C20.ProofsMakeSparse C20.ProofsDQF.
 
 (* ------------------------------------------------------------------------------------------------------------ *)
 (* linear_operator/utils/toeplitz.py *)
@@ -104,6 +104,28 @@ Theorem C20_toeplitz_matmul_guard_rows : forall vec_ok c r M n n' p tb mb,
   tshape c = n :: tb -> tshape r = n :: tb -> tshape M = p :: n' :: mb -> n <> n' ->
   toeplitz_matmul vec_ok c r M = Err.
 Proof. exact toeplitz_matmul_rows_raises. Qed.
+
+(* sym_toeplitz_derivative_quadratic_form(left, right), matrices (batch..., m, s) = s column vectors of length m:
+   entry d of the result is  sum_j u_j^T (dT/dc_d) v_j,  dT/dc_d = ones on the d-th sub- and super-diagonal
+   (the identity for d = 0): the two upper-triangular Toeplitz products through toeplitz_matmul (the second on the
+   flipped vectors) and the diagonal correction — all m >= 1, any number s of vectors, any batch shape *)
+Theorem C20_sym_toeplitz_derivative_quadratic_form : forall left right s m batch,
+  tshape left = s :: m :: batch -> tshape right = s :: m :: batch -> 1 <= m ->
+  exists out, sym_toeplitz_derivative_quadratic_form left right = Ok out /\ tshape out = m :: batch /\
+    forall d b, d < m -> valid b batch ->
+      tat out (d :: b) =
+      zsum s (fun s' => if d =? 0 then zsum m (fun i => UV left right b s' i i)
+                        else (zsum (m - d) (fun a => UV left right b s' a (a + d)) + zsum (m - d) (fun a => UV left right b s' (a + d) a))%Z).
+Proof. exact dqf_matrix_correct'. Qed.
+
+Theorem C20_sym_toeplitz_derivative_quadratic_form_vector : forall left right m,
+  tshape left = [m] -> tshape right = [m] -> 1 <= m ->
+  exists out, sym_toeplitz_derivative_quadratic_form left right = Ok out /\ tshape out = [m] /\
+    forall d, d < m ->
+      tat out [d] =
+      if d =? 0 then zsum m (fun i => (tat left [i] * tat right [i])%Z)
+      else (zsum (m - d) (fun a => (tat left [a] * tat right [(a + d)%nat])%Z) + zsum (m - d) (fun a => (tat left [(a + d)%nat] * tat right [a])%Z))%Z.
+Proof. exact dqf_vector_correct. Qed.
 
 (* non-vacuity: a batched, broadcasting instance satisfies the hypotheses of C20_toeplitz_matmul_matrix *)
 Example C20_toeplitz_matmul_nonvacuous :
@@ -337,21 +359,31 @@ Theorem C20_bdsmm_dense_batched : forall stride s d n m p b0 rb,
       tat out (j :: i :: b) = zsum n (fun c => (tat (sdense s) [c; i] * tat d (j :: c :: b))%Z).
 Proof. exact bdsmm_dense_batched_correct. Qed.
 
-(* sparse-batched branch (sparse of rank > 2): every batch member is placed on the diagonal of ONE 2-D sparse matrix
-   (entry (b, r, c) -> (r + beta*num_rows, c + beta*num_cols), beta = `indices[:-2].t() @ batch_multiplication_factor`
-   = row-major rank of b), the dense operand is reshaped to (batch*num_cols, -1), one dsmm, reshaped back.
-   Proved for every sparse batch shape ob of any rank and a dense batch that broadcasts INTO it (so that
-   sparse_repeat is the identity, for either stride).  PARTIAL: a sparse batch that itself has to be broadcast
-   (size-1 batch dimensions repeated by sparse_repeat before flattening) is covered by C20_sparse_repeat and the
-   correspondence grid only. *)
-Theorem C20_bdsmm_sparse_batched_partial : forall stride s d nc nr o0 orest p db,
-  let ob := o0 :: orest in
-  sshape s = nc :: nr :: ob -> swf s = true -> Forall (fun x => 1 <= x) (nc :: nr :: ob) ->
-  tshape d = p :: nc :: db -> broadcast_shapes ob db = Some ob ->
-  exists out, bdsmm stride s d = Ok out /\ tshape out = p :: nr :: ob /\
+(* sparse-batched branch (sparse of rank > 2): the sparse batch is first broadcast to the output batch by
+   sparse_repeat (repeat sizes output // sparse), then every batch member is placed on the diagonal of ONE 2-D sparse
+   matrix (entry (b, r, c) -> (r + beta*num_rows, c + beta*num_cols), beta = `indices[:-2].t() @
+   batch_multiplication_factor` = row-major rank of b), the dense operand is expanded and reshaped to
+   (batch*num_cols, -1), one dsmm, reshaped back.  Any sparse batch shape sb (rank >= 1) and dense batch shape db that
+   broadcast to ob (BOTH operands may be broadcast), all sizes >= 1 *)
+Theorem C20_bdsmm_sparse_batched : forall s d nc nr sb0 sbr p db ob,
+  let sb := sb0 :: sbr in
+  sshape s = nc :: nr :: sb -> swf s = true -> tshape d = p :: nc :: db ->
+  broadcast_shapes sb db = Some ob ->
+  Forall (fun x => 1 <= x) (nc :: nr :: ob) -> Forall (fun x => 1 <= x) sb ->
+  exists out, bdsmm stride_dense s d = Ok out /\ tshape out = p :: nr :: ob /\
     forall j i b, j < p -> i < nr -> valid b ob ->
-      tat out (j :: i :: b) = zsum nc (fun c => (tat (sdense s) (c :: i :: b) * tat d (j :: c :: bcast_ix db b))%Z).
-Proof. exact bdsmm_sparse_batched_correct. Qed.
+      tat out (j :: i :: b) =
+      zsum nc (fun c => (tat (sdense s) (c :: i :: bcast_ix sb b) * tat d (j :: c :: bcast_ix db b))%Z).
+Proof. exact bdsmm_sparse_batched_general. Qed.
+
+(* ... and the pinned sparse_repeat stride gives the same bdsmm, because bdsmm only ever repeats size-1 dimensions *)
+Theorem C20_bdsmm_sparse_batched_pinned_stride : forall s d nc nr sb0 sbr p db ob,
+  let sb := sb0 :: sbr in
+  sshape s = nc :: nr :: sb -> swf s = true -> tshape d = p :: nc :: db ->
+  broadcast_shapes sb db = Some ob ->
+  Forall (fun x => 1 <= x) (nc :: nr :: ob) -> Forall (fun x => 1 <= x) sb ->
+  bdsmm stride_pinned s d = bdsmm stride_dense s d.
+Proof. exact bdsmm_sparse_batched_pinned_eq. Qed.
 
 (* the batch assignment dot product is the row-major rank of the (torch-order) batch index *)
 Theorem C20_batch_assignment : forall rbatch bix, length bix = length rbatch ->
@@ -365,6 +397,24 @@ Theorem C20_dsmm_backward_plain : forall stride s g n m p,
   exists out, dsmm_backward stride s g = Ok out /\ tshape out = [p; n] /\
     forall j c, tat out [j; c] = zsum m (fun i => (tat (sdense s) [c; i] * tat g [j; i])%Z).
 Proof. exact dsmm_backward_plain_correct. Qed.
+
+Theorem C20_dsmm_backward_dense_batched : forall stride s g n m p b0 rb,
+  sshape s = [n; m] -> tshape g = p :: m :: b0 :: rb -> swf s = true ->
+  exists out, dsmm_backward stride s g = Ok out /\ tshape out = p :: n :: b0 :: rb /\
+    forall j c b, j < p -> c < n -> valid b (b0 :: rb) ->
+      tat out (j :: c :: b) = zsum m (fun i => (tat (sdense s) [c; i] * tat g (j :: i :: b))%Z).
+Proof. exact dsmm_backward_dense_batched_correct. Qed.
+
+Theorem C20_dsmm_backward_sparse_batched : forall s g nc nr sb0 sbr p gb ob,
+  let sb := sb0 :: sbr in
+  sshape s = nc :: nr :: sb -> swf s = true -> tshape g = p :: nr :: gb ->
+  broadcast_shapes sb gb = Some ob ->
+  Forall (fun x => 1 <= x) (nc :: nr :: ob) -> Forall (fun x => 1 <= x) sb ->
+  exists out, dsmm_backward stride_dense s g = Ok out /\ tshape out = p :: nc :: ob /\
+    forall j c b, j < p -> c < nc -> valid b ob ->
+      tat out (j :: c :: b) =
+      zsum nr (fun i => (tat (sdense s) (c :: i :: bcast_ix sb b) * tat g (j :: i :: bcast_ix gb b))%Z).
+Proof. exact dsmm_backward_sparse_batched_correct. Qed.
 
 (* sparse_getitem (repaired code, proposed_fixes/C20-sparse-getitem-*.diff) = dense basic indexing: every well-formed
    sparse tensor of rank <= 2 (any sizes, duplicate / unordered entries), index tuples of ints in range (negative = from
@@ -450,6 +500,37 @@ Proof. exact make_sparse_correct. Qed.
 
 Theorem C20_broadcast_shapes_comm : forall a b, broadcast_shapes a b = broadcast_shapes b a.
 Proof. exact broadcast_shapes_comm. Qed.
+
+(* non-vacuity of the hypotheses of the batched / broadcasting theorems above: concrete instances, evaluated *)
+Example C20_bdsmm_sparse_batched_nonvacuous :
+  (* sparse (2,1,2,3) [batch (2,1)], dense (3,3,2) [batch (3,)]: both operands are broadcast to batch (2,3) *)
+  let s := mkS [3; 2; 1; 2] [([0; 0; 0; 0], 1%Z); ([2; 1; 0; 0], 2%Z); ([1; 0; 0; 1], 3%Z); ([1; 0; 0; 1], 4%Z)] in
+  let d := of_flat [2; 3; 3] (map Z.of_nat (seq 1 18)) in
+  swf s = true /\ broadcast_shapes [1; 2] [3] = Some [3; 2] /\
+  Forall (fun x => 1 <= x) [3; 2; 3; 2] /\ Forall (fun x => 1 <= x) [1; 2] /\
+  match bdsmm stride_dense s d, bdsmm stride_pinned s d with
+  | Ok o1, Ok o2 => tshape o1 = [2; 2; 3; 2] /\ to_flat o1 = to_flat o2 /\ tat o1 [1; 0; 2; 1] = (7 * 16)%Z
+  | _, _ => False end.
+Proof.
+  cbv zeta. split; [reflexivity|]. split; [reflexivity|]. split; [repeat constructor|]. split; [repeat constructor|].
+  vm_compute. repeat split.
+Qed.
+
+Example C20_left_t_interp_nonvacuous :
+  let idx := of_flat [2; 2; 2] [0; 0; 2; 1; 1; 1; 0; 2]%Z in        (* batch (2,), 2 data points, 2 coefficients, duplicates *)
+  let vals := of_flat [2; 2; 2] [1; 2; 3; 0; (-1); 1; 2; 2]%Z in
+  let rhs := of_flat [1; 2; 1] [5; 7]%Z in                          (* batch (1,): broadcast *)
+  broadcast_shapes [2] [1] = Some [2] /\
+  (forall ix, valid ix [2; 2; 2] -> (0 <= tat idx ix < Z.of_nat 3)%Z) /\
+  match left_t_interp stride_pinned idx vals rhs 3 with
+  | Ok out => tshape out = [1; 3; 2] /\ to_flat out = [15; 0; 21; 14; 0; 14]%Z
+  | Err => False end.
+Proof.
+  cbv zeta. split; [reflexivity|]. split.
+  - intros [|a [|r [|b [|? ?]]]]; simpl; try tauto. intros [Ha [Hr [Hb _]]].
+    destruct a as [|[|a]]; try lia; destruct r as [|[|r]]; try lia; destruct b as [|[|b]]; try lia; vm_compute; split; congruence.
+  - vm_compute. split; reflexivity.
+Qed.
 
 (* ------------------------------------------------------------------------------------------------------------ *)
 (* linear_operator/utils/qr.py, pinverse.py — the transcription ModelQR.v instantiated on an ARBITRARY real field F
@@ -582,4 +663,21 @@ Theorem C20_pinverse_algebra_fat : forall (F : fieldType) (n k : nat) (A : 'M[F]
   [/\ A *m P *m A = A, P *m A *m P = P, (A *m P)^T = A *m P & (P *m A)^T = P *m A].
 Proof.
 move=> F n k A Q R hA hQ hR P; split; [exact: pinv_fat_right_inverse | exact: pinv_fat_penrose].
+Qed.
+
+(* non-vacuity of the hypotheses of the QR / pseudo-inverse theorems: over EVERY real field and threshold the batch
+   consisting of the 2 x 1 matrix (1, 0)^T with the oracle answer Q = (1, 0)^T, R = (1) satisfies them *)
+Example C20_stable_pinverse_nonvacuous : forall (F : realFieldType) (thr : F),
+  let A : qmat F := [:: [:: 1]; [:: 0]] in
+  let oracle : seq (qmat F) -> seq (qmat F * qmat F) := fun _ => [:: ([:: [:: 1]; [:: 0]], [:: [:: 1]])] in
+  let mats := [:: A] in
+  [/\ (0 < size mats)%N,
+      (forall b, (b < size mats)%N -> qwf 2 1 (nth [::] mats b)) &
+      (forall b, (b < size (oracle mats))%N ->
+         [/\ qwf 2 1 (nth (dQR F) (oracle mats) b).1, qwf 1 1 (nth (dQR F) (oracle mats) b).2 &
+             upper_tri thr 1 (nth (dQR F) (oracle mats) b).2])].
+Proof.
+move=> F thr A oracle mats; split=> //.
+- by case.
+- by case=> // _; split=> // i j; case: i => // i; rewrite ltnS ltn0.
 Qed.
